@@ -9,6 +9,7 @@ console answers again and a second init() must rebuild the model and the heartbe
 """
 from __future__ import annotations
 
+import asyncio
 import importlib
 
 from ref import at4 as r4
@@ -46,6 +47,7 @@ def instances(tier):
         out.append({"phase": "pending", "gen": g})
         out.append({"phase": "after_failed_init", "gen": g})
         out.append({"phase": "backoff", "gen": g})
+        out.append({"phase": "slow_subscriber", "gen": g})
         out.append({"phase": "initialised", "gen": g, "close_latency": 0.05})      # closing the transport takes 50 ms
         out.append({"phase": "connecting", "gen": g, "quick_reinit": True})        # init() again while the old connect is still in flight
         out.append({"phase": "connecting", "gen": g, "quick_reinit": True, "close_latency": 0.05})
@@ -131,9 +133,54 @@ def _quick_reinit(ctx, p):
         ctx.reach(lab)
 
 
+def _slow_subscriber(ctx, p):
+    """An application subscriber takes 100 ms over a notification; shutdown() and a new init() fall into that time (free
+    instants). The old session's receive task must not live on into the new session: init() succeeds, one connection is
+    in use and stays up, the model follows the console."""
+    g = Gen(p["gen"])
+    inst = Installation.simple(g.n, n_acs=2, zones_per_ac=2)
+    ts = 1.0 + ctx.real("dts", 0, 0.09, lo_strict=True)
+    r = ctx.real("r", 0, 0.2, lo_strict=True)
+    with ApiRig(ctx, g, inst) as rig:
+        con = rig.console
+        rig.start()
+        rig.run(0.5)
+        ctx.check(rig.init_result is True, "reinit_works", detail="handshake failed")
+
+        async def slow(_id):
+            await asyncio.sleep(0.1)
+
+        rig.ac(0).subscribe(slow)
+        inst.ac_status[0] = (r4.build_ac_status(0, 0, 1, 3, 1, 1, 19, 600, 0) if g.n == 4 else r5.build_ac_status(0, 0, 1, 3, 90, 0, 0, 1, 1, 600, 0))
+        rig.loop.vt_call_at(1.0, lambda: con.push(con.ac_status_frame(pid=0x67, only=[0])))
+        done = {}
+
+        async def again():
+            await rig.at.shutdown()
+            done["at"] = rig.loop.time()
+            await asyncio.sleep(r)
+            done["result"] = await rig.at.init()
+
+        rig.loop.vt_call_at(ts, lambda: rig.spawn(again()))
+        rig.run(ts + r + 12.0)
+        got = {a.ac_id: sorted(z.zone_id for z in a.zones) for a in rig.at.air_conditioners}
+        open_now = [c.index for c in rig.net.conns if not c.client_closed]
+        detail = {"result": done.get("result"), "model": got, "conns": len(rig.net.conns), "still_open": open_now,
+                  "errors": [str(e.get("exception")) for e in rig.task_failures()][:2]}
+        ctx.observe("result", done.get("result"))
+        ctx.check(done.get("result") is True and rig.at.initialised and got == {0: [0, 1], 1: [2, 3]}, "reinit_works", detail=detail)
+        ctx.check(len(rig.net.conns) == 2 and open_now == [1] and rig.net.max_open <= 1, "all_transports_closed",
+                  detail=dict(detail, why="the new session's connection was disturbed"))
+        ctx.check(not rig.task_failures(), "reinit_works", detail=detail)
+    for lab in expect_labels("quick"):
+        ctx.reach(lab)
+
+
 def run(ctx, p):
     if p["phase"] == "sock_close":
         return _sock_close(ctx, p)
+    if p["phase"] == "slow_subscriber":
+        return _slow_subscriber(ctx, p)
     if p.get("quick_reinit"):
         return _quick_reinit(ctx, p)
     A = importlib.import_module("pyairtouch.api")
